@@ -14,6 +14,7 @@ type Opts struct {
 	IgnoreCallFail bool     // call results may be ignored (=> not gas-monotone)
 	NoSenderBal    bool     // never read the sender's balance (depends on the gas limit)
 	Targets        []uint64 // callable addresses
+	BigTargets     [][]byte // callable 20-byte addresses (tokens for the specification)
 	MaxDepth       int      // nesting of if / loop blocks
 	Stmts          int      // statements per block (upper bound)
 	Slots          int      // number of storage slots used (0..Slots-1)
@@ -386,7 +387,11 @@ func (g *gen) call() {
 			a.Push(0)
 		}
 	}
-	a.Push(target)
+	if len(g.o.BigTargets) > 0 && g.r.Intn(4) == 0 {
+		a.PushBytes(g.o.BigTargets[g.r.Intn(len(g.o.BigTargets))])
+	} else {
+		a.Push(target)
+	}
 	switch g.r.Intn(8) {
 	case 0:
 		a.Push(uint64(g.r.Intn(3000)))
